@@ -344,6 +344,9 @@ harness!(td_insert_merges_backlog0_fuse, unwind 5, {
     d.insert_weighted(x, w);
     let (nc, nb) = d.verif_lens();
     chk!("backlog0_merged_at_once", nb == 0 && (nc == 1 || nc == 2));
+    // K0 with delta = 1.1: f_inv(f(0) + 1) clamps to q = 1, so EVERYTHING fuses into one centroid whatever the weights
+    // (the "total fusion" end of the delta range; also the size bound of C11/C04 in its smallest instance)
+    chk!("total_fusion_at_delta_1_1", nc == 1);
     let (c1, s1) = raw_totals(&d);
     chk!("fuse_preserves_count", c1 == p.w[0] + w && d.count() == c1);
     chk!("fuse_preserves_sum", s1 == p.m[0] * p.w[0] + x * w && d.sum() == s1);
